@@ -13,16 +13,25 @@ theorem failState_files (env : Env) (c : Bool) (st : St) : (failState env c st).
 
 theorem step1_files_noEffect (env : Env) (fh : Bool) (cur : Option (Path × Content)) (c : Bool) (st : St)
     (s : Step) (h : s.kind.isFsEffect = false) :
-    match step1 env fh cur c st s with
-    | .next _ st' => st'.files = st.files
-    | .fail st' => st'.files = st.files := by
-  unfold step1
-  cases hk : s.kind <;> simp only [hk, Kind.isFsEffect] at h ⊢ <;>
-    first
-    | (simp at h; done)
-    | (cases fh <;> simp [failState_files]; done)
-    | (split <;> simp [failState_files]; done)
-    | rfl
+    (∀ c' st', step1 env fh cur c st s = .next c' st' → st'.files = st.files) ∧
+    (∀ st', step1 env fh cur c st s = .fail st' → st'.files = st.files) := by
+  constructor
+  · intro c' st' hs
+    unfold step1 at hs
+    cases hk : s.kind <;> simp only [hk, Kind.isFsEffect] at h hs
+    case mayRaise => cases fh <;> simp at hs; rw [← hs.2]
+    case raise => cases fh <;> simp at hs; rw [← hs.2]
+    case unknown => cases fh <;> simp at hs; rw [← hs.2]
+    case encodeCheck => split at hs <;> (cases hs; try rfl)
+    all_goals first | (simp at h; done) | (cases hs; rfl)
+  · intro st' hs
+    unfold step1 at hs
+    cases hk : s.kind <;> simp only [hk, Kind.isFsEffect] at h hs
+    case mayRaise => cases fh <;> simp at hs; rw [← hs, failState_files]
+    case raise => cases fh <;> simp at hs; rw [← hs, failState_files]
+    case unknown => cases fh <;> simp at hs; rw [← hs, failState_files]
+    case encodeCheck => split at hs <;> (cases hs; try rw [failState_files])
+    all_goals first | (simp at h; done) | (cases hs)
 
 theorem step1_next_noRaise (env : Env) (fh : Bool) (cur : Option (Path × Content)) (c : Bool) (st : St)
     (s : Step) (h : s.kind.canRaise = false) (henc : ∀ m, cur = some m → env.encodable m.2 = true) :
@@ -57,8 +66,8 @@ theorem exec_files_noEffect (env : Env) (fault : Nat → Bool) (cur : Option (Pa
     have h1 := step1_files_noEffect env (fault i) cur c st s hs
     unfold exec
     cases hr : step1 env (fault i) cur c st s with
-    | next c' st' => rw [hr] at h1; simp only; rw [ih]; exact h1
-    | fail st' => rw [hr] at h1; exact h1
+    | next c' st' => simp only; rw [ih]; exact h1.1 c' st' hr
+    | fail st' => exact h1.2 st' hr
 
 /-! ### segments without may-raise steps do not fail when the text is encodable -/
 
@@ -123,6 +132,57 @@ theorem failed_run_files (env : Env) (f : Faults) (pre body post : List Step)
     rw [h3] at hrun; cases hrun
 
 
+/-! ### the encode check of `pre` establishes EncodableAll -/
+
+theorem step1_encodeCheck_next (env : Env) (fh : Bool) (cur : Option (Path × Content)) (c : Bool) (st : St)
+    (s : Step) (hk : s.kind = .encodeCheck) (ht : s.target = .perModule) (c' : Bool) (st' : St)
+    (h : step1 env fh cur c st s = .next c' st') : env.mods.all (fun m => env.encodable m.2) = true := by
+  unfold step1 at h
+  simp only [hk, ht] at h
+  split at h
+  · cases h
+  · rename_i hcond
+    simp only [beq_self_eq_true, Bool.true_and, Bool.or_eq_true, Bool.not_eq_eq_eq_not, Bool.not_true, not_or] at hcond
+    simpa using hcond.2
+
+theorem exec_done_encodable (env : Env) (fault : Nat → Bool) (cur : Option (Path × Content))
+    (steps : List Step) (h : hasEncodeCheck steps = true) :
+    ∀ (i : Nat) (c : Bool) (st st' : St), exec env fault cur i c st steps = .done st' →
+      EncodableAll env := by
+  induction steps with
+  | nil => simp [hasEncodeCheck] at h
+  | cons s rest ih =>
+    intro i c st st' hrun
+    unfold exec at hrun
+    cases hres : step1 env (fault i) cur c st s with
+    | fail s1 => rw [hres] at hrun; cases hrun
+    | next c1 s1 =>
+      rw [hres] at hrun
+      simp only [hasEncodeCheck, List.any_cons, Bool.or_eq_true, Bool.and_eq_true, beq_iff_eq] at h
+      rcases h with ⟨hk, ht⟩ | hrest
+      · have hall := step1_encodeCheck_next env (fault i) cur c st s hk ht c1 s1 hres
+        intro m hm
+        simp only [List.all_eq_true] at hall
+        exact hall m hm
+      · exact ih (by simpa [hasEncodeCheck] using hrest) _ _ _ _ hrun
+
+/-- A failed run changed no file: every may-raise step — the encode check of every module's text
+included — precedes the first file-system effect. No hypothesis on the text is left. -/
+theorem failed_run_files_checked (env : Env) (f : Faults) (pre body post : List Step)
+    (htab : raisesBeforeWrites pre body post = true) (hchk : hasEncodeCheck pre = true)
+    (st st' : St) (hrun : run env f pre body post st = .failed st') : st'.files = st.files := by
+  cases h1 : exec env f.pre none 0 false st pre with
+  | failed s1 =>
+    have hpre : pre.all (fun s => !s.kind.isFsEffect) = true := by
+      simp only [raisesBeforeWrites, Bool.and_eq_true] at htab; exact htab.1
+    have hfiles := exec_files_noEffect env f.pre none pre hpre 0 false st
+    unfold run at hrun
+    rw [h1] at hrun hfiles
+    cases hrun
+    exact hfiles
+  | done s1 =>
+    exact failed_run_files env f pre body post htab (exec_done_encodable env f.pre none pre hchk 0 false st s1 h1) st st' hrun
+
 /-! ### the working directory -/
 
 theorem yieldIndex_le (steps : List CStep) : yieldIndex steps ≤ steps.length := by
@@ -162,6 +222,7 @@ theorem step1_cwd (env : Env) (fh : Bool) (cur : Option (Path × Content)) (c : 
     case mayRaise => cases fh <;> simp at h; obtain ⟨rfl, rfl⟩ := h; exact ⟨hI, hb⟩
     case raise => cases fh <;> simp at h; obtain ⟨rfl, rfl⟩ := h; exact ⟨hI, hb⟩
     case unknown => cases fh <;> simp at h; obtain ⟨rfl, rfl⟩ := h; exact ⟨hI, hb⟩
+    case encodeCheck => split at h <;> (cases h; try exact ⟨hI, hb⟩)
     case openW => split at h <;> (cases h; exact ⟨hI, hb⟩)
     case write =>
       split at h
@@ -183,6 +244,7 @@ theorem step1_cwd (env : Env) (fh : Bool) (cur : Option (Path × Content)) (c : 
     case mayRaise => cases fh <;> simp at h; rw [← h]; exact hfail
     case raise => cases fh <;> simp at h; rw [← h]; exact hfail
     case unknown => cases fh <;> simp at h; rw [← h]; exact hfail
+    case encodeCheck => split at h <;> (cases h; try exact hfail)
     case openW => split at h <;> cases h
     case write =>
       split at h
@@ -305,6 +367,7 @@ theorem step1_outside (env : Env) (fh : Bool) (cur : Option (Path × Content)) (
     case mayRaise => cases fh <;> simp at h; rw [← h.2]
     case raise => cases fh <;> simp at h; rw [← h.2]
     case unknown => cases fh <;> simp at h; rw [← h.2]
+    case encodeCheck => split at h <;> (cases h; try rfl)
     case openW =>
       split at h
       · rename_i q hq
@@ -326,6 +389,7 @@ theorem step1_outside (env : Env) (fh : Bool) (cur : Option (Path × Content)) (
     case mayRaise => cases fh <;> simp at h; rw [← h, failState_files]
     case raise => cases fh <;> simp at h; rw [← h, failState_files]
     case unknown => cases fh <;> simp at h; rw [← h, failState_files]
+    case encodeCheck => split at h <;> (cases h; try rw [failState_files])
     case openW => split at h <;> cases h
     case write =>
       split at h
